@@ -146,7 +146,7 @@ def install_env(ctx, eng, faults=True, fail_only=None):
             fsm = st.ghost.setdefault("fs", {})
             if key not in fsm:
                 fsm[key] = z3.Bool("%s_%s_%d" % (name, re.sub(r"\W+", "_", getattr(p, "name", "p")), next(eng.fresh_ids)))
-            return Outcome(BoolV(fsm[key]), events=[Event("Path::" + name, [p], fsm[key])])
+            return Outcome(BoolV(fsm[key]), events=[Event("Path::" + name, [p], BoolV(fsm[key]))])
         return h
     S(r"^(std::path::)?Path::exists$", s_exists("exists"))
     S(r"^(std::path::)?Path::is_dir$", s_exists("is_dir"))
